@@ -1,12 +1,18 @@
 (* C13 — All encoder variants and options describe the same document.
    Proved at the level all variants share: the compact interpreter writes the
    compact text of the token sequence the value denotes, whatever is omitted
-   and however the value nests; the other variants are compared with it (and
-   with encoding/json.Indent of it) by the harness.  The indenting and colouring
-   interpreters themselves are not modelled. *)
-From Coq Require Import NArith List Bool Permutation.
-From GJ Require Import Spec.Json Model.Enc Proofs.EncP.
+   and however the value nests.  The indenting interpreter is modelled too
+   (Model/EncIndent.v, the helper algebra of vm_indent/util.go): it writes the
+   text whose tokens are separated by newline + prefix + depth x indent, and
+   with white space as prefix and indent that text is read by the RFC 8259
+   recogniser as the same token sequence as the compact text: the two variants
+   describe the same document, for every value.  The colouring interpreters
+   and the options are compared with these by the harness. *)
+From Coq Require Import NArith List Bool Permutation String.
+From GJ Require Import Spec.Json Model.Enc Model.EncIndent Proofs.EncP Proofs.ParseP Proofs.ParseWsP Proofs.EncIndentP Gen.UtilShape.
 Import ListNotations.
+Open Scope string_scope.
+Open Scope list_scope.
 Open Scope N_scope.
 
 Theorem C13_compact_variant_is_compact_text : forall v, marshal v = render_compact (toks v).
@@ -30,3 +36,54 @@ Proof.
   - cbn [flat_map]. rewrite !app_assoc. apply Permutation_app_tail. apply Permutation_app_comm.
   - eapply perm_trans; eassumption.
 Qed.
+
+(* ---- the indenting interpreter ---- *)
+(* for every prefix and indent string (any bytes) and every value: the bytes MarshalIndent writes are the indented
+   text of the value without the members that are left out *)
+Theorem C13_indent_variant_is_indented_text : forall pre ind v, marshal_indent pre ind v = ri pre ind 0 (strip v).
+Proof. exact marshal_indent_is_ri. Qed.
+Print Assumptions C13_indent_variant_is_indented_text.
+
+(* with white space as prefix and indent the indented and the compact text are the same document: the RFC 8259
+   recogniser reads the same token sequence from both, with nothing left over *)
+Theorem C13_indent_and_compact_same_document : forall pre ind v,
+  all_ws pre = true -> all_ws ind = true -> wfp (strip v) = true ->
+  parse_json (marshal_indent pre ind v) = Some (toks v, []) /\ parse_json (marshal v) = Some (toks v, []).
+Proof. intros pre ind v Hp Hi Hw. split; [exact (parse_marshal_indent pre ind Hp Hi v Hw)|exact (parse_marshal v Hw)]. Qed.
+Print Assumptions C13_indent_and_compact_same_document.
+
+Example C13_indent_example :
+  let v := JObj [([97], false, JArr [JLeaf (TNum [49]); JObj []; JArr []]); ([98], true, JLeaf TTrue); ([99], false, JObj [([100], false, JLeaf TNull)])] in
+  marshal_indent [62] [32; 32] v =
+  [123; 10; 62; 32; 32; 34; 97; 34; 58; 32; 91; 10; 62; 32; 32; 32; 32; 49; 44; 10; 62; 32; 32; 32; 32; 123; 125; 44; 10; 62; 32; 32; 32; 32; 91; 93; 10; 62; 32; 32; 93; 44; 10;
+   62; 32; 32; 34; 99; 34; 58; 32; 123; 10; 62; 32; 32; 32; 32; 34; 100; 34; 58; 32; 110; 117; 108; 108; 10; 62; 32; 32; 125; 10; 62; 125].
+Proof. vm_compute. reflexivity. Qed.
+
+(* ---- the helpers the two models are a reading of: the bodies in the source (translator) are these ---- *)
+Lemma C13_emission_helpers_as_modelled :
+  compact_helpers = [
+  ("appendComma", "{ return append(b, ',') }");
+  ("appendArrayHead", "{ return append(b, '[') }");
+  ("appendArrayEnd", "{ last := len(b) - 1 b[last] = ']' return append(b, ',') }");
+  ("appendEmptyArray", "{ return append(b, '[', ']', ',') }");
+  ("appendEmptyObject", "{ return append(b, '{', '}', ',') }");
+  ("appendObjectEnd", "{ last := len(b) - 1 b[last] = '}' return append(b, ',') }");
+  ("appendStructHead", "{ return append(b, '{') }");
+  ("appendStructKey", "{ return append(b, code.Key...) }");
+  ("appendStructEnd", "{ return append(b, '}', ',') }");
+  ("appendStructEndSkipLast", "{ last := len(b) - 1 if b[last] == ',' { b[last] = '}' return appendComma(ctx, b) } return appendStructEnd(ctx, code, b) }")] /\
+  indent_helpers = [
+  ("appendComma", "{ return append(b, ',', '\n') }");
+  ("appendArrayHead", "{ b = append(b, '[', '\n') return appendIndent(ctx, b, code.Indent+1) }");
+  ("appendArrayEnd", "{ b = b[:len(b)-2] b = append(b, '\n') b = appendIndent(ctx, b, code.Indent) return append(b, ']', ',', '\n') }");
+  ("appendEmptyArray", "{ return append(b, '[', ']', ',', '\n') }");
+  ("appendEmptyObject", "{ return append(b, '{', '}', ',', '\n') }");
+  ("appendObjectEnd", "{ last := len(b) - 1 b[last-1] = '\n' b = appendIndent(ctx, b[:last], code.Indent) return append(b, '}', ',', '\n') }");
+  ("appendStructHead", "{ return append(b, '{', '\n') }");
+  ("appendStructKey", "{ b = appendIndent(ctx, b, code.Indent) b = append(b, code.Key...) return append(b, ' ') }");
+  ("appendStructEndSkipLast", "{ last := len(b) - 1 if b[last-1] == '{' { b[last] = '}' } else { if b[last] == '\n' { b = b[:len(b)-2] } b = append(b, '\n') b = appendIndent(ctx, b, code.Indent-1) b = append(b, '}') } return appendComma(ctx, b) }");
+  ("appendArrayElemIndent", "{ return appendIndent(ctx, b, code.Indent+1) }");
+  ("appendMapKeyIndent", "{ return appendIndent(ctx, b, code.Indent) }")] /\
+  append_indent_body = "{ b = append(b, ctx.Prefix...) indentNum := ctx.BaseIndent + indent for i := uint32(0); i < indentNum; i++ { b = append(b, ctx.IndentStr...) } return b }" /\
+  marshal_indent_cut = "buf = buf[:len(buf)-2]".
+Proof. repeat split; reflexivity. Qed.
